@@ -371,6 +371,39 @@ def _unalias_bound_methods(tree: ast.AST) -> None:
     ast.fix_missing_locations(tree)
 
 
+def _desugar_functional(tree: ast.AST) -> None:
+    """map(f, xs)  ->  (f(__m) for __m in xs);   chain.from_iterable(e) with e a generator / comprehension over calls
+    ->  the flattened generator;  filter(None, xs) stays. Only for `f` a plain name or attribute (a function, not a lambda)
+    and one iterable: the element-wise call is then visible to everything that follows calls."""
+    counter = [0]
+
+    class _T(ast.NodeTransformer):
+        def visit_Call(self, node: ast.Call):
+            self.generic_visit(node)
+            if isinstance(node.func, ast.Name) and node.func.id == "map" and len(node.args) == 2 and not node.keywords \
+                    and isinstance(node.args[0], (ast.Name, ast.Attribute)) and not isinstance(node.args[1], ast.Starred):
+                counter[0] += 1
+                v = f"__m{counter[0]}"
+                call = ast.Call(func=node.args[0], args=[ast.Name(id=v, ctx=ast.Load())], keywords=[])
+                gen = ast.GeneratorExp(elt=call, generators=[ast.comprehension(target=ast.Name(id=v, ctx=ast.Store()), iter=node.args[1], ifs=[], is_async=0)])
+                return ast.copy_location(gen, node)
+            f = node.func
+            if isinstance(f, ast.Attribute) and f.attr == "from_iterable" and isinstance(f.value, (ast.Name, ast.Attribute)) \
+                    and (f.value.id if isinstance(f.value, ast.Name) else f.value.attr) == "chain" and len(node.args) == 1 and not node.keywords \
+                    and isinstance(node.args[0], (ast.GeneratorExp, ast.ListComp)) and len(node.args[0].generators) == 1:
+                inner = node.args[0]
+                counter[0] += 1
+                v = f"__m{counter[0]}"
+                gen = ast.GeneratorExp(elt=ast.Name(id=v, ctx=ast.Load()), generators=[
+                    inner.generators[0],
+                    ast.comprehension(target=ast.Name(id=v, ctx=ast.Store()), iter=inner.elt, ifs=[], is_async=0)])
+                return ast.copy_location(gen, node)
+            return node
+
+    _T().visit(tree)
+    ast.fix_missing_locations(tree)
+
+
 def _drop_local_annotations(tree: ast.AST) -> None:
     """Inside function bodies `x: T = v` is read as `x = v` (a local annotation has no effect at run time; class bodies and
     module level keep theirs - dataclass fields and typed constants are facts the rules use)."""
@@ -489,6 +522,7 @@ class Repo:
             _desugar_match(tree)
             _hoist_walrus(tree)
             _unalias_bound_methods(tree)
+            _desugar_functional(tree)
             set_parents(tree)
             mod = Module(name=name, path=path, source=src, tree=tree)
             mod.imports = collect_imports(tree.body, name, is_pkg)
